@@ -87,11 +87,12 @@ PROPS["C02"] = dict(
     extra_harnesses=dict(quick=[], thorough=[]),
     per_harness={
         r"c02_._fold_.*": dict(mem_gb=12, recursion={r"file::AsepriteFile::write_cel": 2}, timeout=1500),
-        r"c02_._frame_gate_.*": dict(mem_gb=12, timeout=1500),
+        r"c02_._frame_gate_.*": dict(mem_gb=8, timeout=1500),
     },
     jobs_thorough=6,
     bounds="raw cel unit: canvas <= 3x2, cel <= 2x2, offset over all of i16 x i16, opacities/pixels/mode unrestricted; "
-           "frame fold: <= 3 layers, 2 frames, 1x1 canvas and cels, symbolic flags/levels/opacities/modes/cel kinds",
+           "frame fold: <= 3 layers, 2 frames, 1x1 canvas and cels, symbolic flags/levels/opacities/modes, concrete cel kinds; "
+           "frame_image gate and order alone (write_cel replaced by a recorder): 3 (quick) / 5 (thorough) layers, symbolic forest levels, flags, cel presence",
     outside="larger rectangles (source index arithmetic is decided for cel width <= 2), more than 3 layers; what the 19 "
             "blend functions compute (C03); tilemap cels in the fold (C08 harnesses)",
 )
